@@ -22,17 +22,26 @@ type c07Params struct {
 	Stall    bool   // the server does not read: socket writes block once the pipe is full
 	Cause    string // close | eof | readerr | writeerr | cancel
 	FloodCtl bool
-	UserSend int // lines a user task is sending concurrently
-	ChanCap  int // 0 = real capacity (32); 2 = capacity-scaled abstraction
+	UserSend int  // lines a user task is sending concurrently
+	ChanCap  int  // 0 = real capacity (32); 2 = capacity-scaled abstraction
+	Probe    bool // every handler calls the client's query API (Me, Connected, StateTracker, String) while it runs
+	Tracking bool // state tracking on; the backlog consists of JOINs of other users
 }
 
 func (p c07Params) name() string {
-	return fmt.Sprintf("teardown/in=%d/%s/mode=%s/emit=%d/stall=%v/cause=%s/fc=%v/user=%d/cap=%d", p.Backlog, p.Segs, p.Mode, p.Emit, p.Stall, p.Cause, p.FloodCtl, p.UserSend, p.ChanCap)
+	n := fmt.Sprintf("teardown/in=%d/%s/mode=%s/emit=%d/stall=%v/cause=%s/fc=%v/user=%d/cap=%d", p.Backlog, p.Segs, p.Mode, p.Emit, p.Stall, p.Cause, p.FloodCtl, p.UserSend, p.ChanCap)
+	if p.Probe {
+		n += "/probe"
+	}
+	if p.Tracking {
+		n += "/tracking"
+	}
+	return n
 }
 
 func (p c07Params) params() map[string]interface{} {
 	return map[string]interface{}{"inbound_backlog": p.Backlog, "segs": p.Segs, "mode": p.Mode, "emit": p.Emit, "stall": p.Stall,
-		"cause": p.Cause, "floodctl": p.FloodCtl, "user_send": p.UserSend, "chancap": p.ChanCap}
+		"cause": p.Cause, "floodctl": p.FloodCtl, "user_send": p.UserSend, "chancap": p.ChanCap, "probe": p.Probe, "tracking": p.Tracking}
 }
 
 func c07Scenario(p c07Params) *explore.Scenario {
@@ -44,10 +53,26 @@ func c07Scenario(p c07Params) *explore.Scenario {
 	}
 	sc.Main = func(env *vx.Env) {
 		c := NewClient("me", func(cfg *client.Config) { cfg.Flood = !p.FloodCtl })
+		if p.Tracking {
+			c.EnableStateTracking()
+		}
 		first := vx.NewEvent("first-handled")
 		gate := vx.NewEvent("gate")
+		probe := func(conn *client.Conn) {
+			if p.Probe {
+				_ = conn.Me().Nick
+				_ = conn.Connected()
+				if st := conn.StateTracker(); st != nil {
+					_ = st.GetChannel("#c")
+				}
+				_ = conn.String()
+			}
+		}
+		c.HandleFunc("JOIN", func(conn *client.Conn, line *client.Line) { probe(conn) })
+		c.HandleBG("JOIN", client.HandlerFunc(func(conn *client.Conn, line *client.Line) { probe(conn) }))
 		c.HandleFunc("PRIVMSG", func(conn *client.Conn, line *client.Line) {
 			if line.Text() != "m0" {
+				probe(conn)
 				return
 			}
 			vx.Observe("ev", "handler-enter")
@@ -61,6 +86,7 @@ func c07Scenario(p c07Params) *explore.Scenario {
 					conn.Raw(fmt.Sprintf("PRIVMSG #c :echo %d", i))
 				}
 			}
+			probe(conn)
 			vx.Observe("ev", "handler-exit")
 		})
 		c.HandleFunc(client.DISCONNECTED, func(conn *client.Conn, line *client.Line) {
@@ -77,11 +103,20 @@ func c07Scenario(p c07Params) *explore.Scenario {
 		if p.Stall {
 			vc.StallWrites(1) // from now on the server does not read: the next write blocks
 		}
-		if p.Segs == "many" {
+		switch {
+		case p.Tracking:
+			var sb strings.Builder
+			sb.WriteString(":me!ident@host JOIN #c\r\n")
+			sb.WriteString(Privmsgs(0, 1))
+			for i := 0; i < p.Backlog; i++ {
+				fmt.Fprintf(&sb, ":u%d!i@h JOIN #c\r\n", i)
+			}
+			vc.Send(sb.String())
+		case p.Segs == "many":
 			for i := 0; i <= p.Backlog; i++ {
 				vc.Send(Privmsgs(i, 1))
 			}
-		} else {
+		default:
 			vc.Send(Privmsgs(0, p.Backlog+1))
 		}
 		if p.UserSend > 0 {
@@ -384,6 +419,14 @@ func c07Jobs(tier string) []Job {
 		for _, cs := range causes {
 			add(c07Params{Backlog: 1, Segs: "one", Mode: "sending", Emit: 300, Stall: true, Cause: cs}, b1, 300)
 		}
+	}
+	// handlers (user and built-in) that use the client's query API while the teardown is in progress
+	for _, cs := range causes {
+		for _, bl := range []int{1, 33} {
+			add(c07Params{Backlog: bl, Segs: "one", Mode: "gated", Cause: cs, Probe: true}, b1, 20+bl)
+			add(c07Params{Backlog: bl, Segs: "one", Mode: "gated", Cause: cs, Probe: true, Tracking: true}, b1, 30+bl)
+		}
+		add(c07Params{Backlog: 3, Segs: "one", Mode: "gated", Cause: cs, Probe: true, Tracking: true, ChanCap: 2}, b2, 20)
 	}
 	// idle handler, user sender, flood control
 	for _, cs := range causes {
